@@ -53,6 +53,8 @@ def main():
             items.append(o)
             if o["status"] == "violated":
                 candidates.append(o)
+            elif o["status"] == "violated-duplicate":
+                pass   # same finding key already reported by a smaller obligation of this run
             elif o["status"] != "discharged":
                 inconclusive.append(f"mirsym {o['name']}: {o['status']} {o.get('detail','')}")
 
